@@ -25,35 +25,17 @@ theorem strip_ends (p : Char → Bool) (a b : Char) (s : Str) (ha : p a = false)
   rw [List.cons_append, dropWhile_cons_false (s ++ [b]) ha]
   exact rdrop_snoc_false (a :: s) hb
 
-theorem stripVal_braced (s : Str) (h : braceSafe s) : stripVal ('{' :: s ++ ['}']) = s := by
-  obtain ⟨h1, h2⟩ := h
+/-- the reader removes exactly the braces the writer put around a text or a tag — whatever the
+string is (even one that itself starts with `{` or ends with `}`). -/
+theorem stripVal_braced (s : Str) : stripVal ('{' :: s ++ ['}']) = s := by
   have hstrip : strip ('{' :: s ++ ['}']) = '{' :: s ++ ['}'] := by
     unfold strip lstrip rstrip
     exact strip_ends isSpace '{' '}' s (by decide) (by decide)
-  have hq : ∀ q : Char, q ≠ '{' → q ≠ '}' → stripC q ('{' :: s ++ ['}']) = '{' :: s ++ ['}'] := by
-    intro q hq1 hq2
-    unfold stripC lstripC rstripC
-    exact strip_ends (fun x => x == q) '{' '}' s (by simp [hq1.symm]) (by simp [hq2.symm])
   unfold stripVal
-  rw [hstrip, hq '\'' (by decide) (by decide), hq '"' (by decide) (by decide)]
-  have hl : lstripC '{' ('{' :: s ++ ['}']) = s ++ ['}'] := by
-    unfold lstripC
-    rw [List.cons_append, List.dropWhile_cons_of_pos (by simp)]
-    cases s with
-    | nil => simp [List.dropWhile]
-    | cons c t =>
-      have : c ≠ '{' := by simpa using h1
-      rw [List.cons_append, dropWhile_cons_false _ (by simp [this])]
-  rw [hl]
-  unfold rstripC
-  rw [List.reverse_append, List.reverse_singleton, List.singleton_append,
-    List.dropWhile_cons_of_pos (by simp)]
-  rcases List.eq_nil_or_concat s with rfl | ⟨t, c, rfl⟩
-  · simp
-  · have : c ≠ '}' := by simpa using h2
-    rw [List.concat_eq_append, List.reverse_append, List.reverse_singleton, List.singleton_append,
-      dropWhile_cons_false _ (by simp [this])]
-    simp
+  simp only [hstrip]
+  rw [List.cons_append]
+  simp only [List.reverse_append, List.reverse_singleton, List.singleton_append]
+  simp
 
 /-- characters of `str(int)`. -/
 theorem intStr_chars (n : Int) : ∀ c ∈ intStr n, c.isDigit = true ∨ c = '-' := by
@@ -70,24 +52,36 @@ theorem dropWhile_all_false {p : Char → Bool} (l : Str) (h : ∀ c ∈ l, p c 
   | nil => rfl
   | cons c t => exact dropWhile_cons_false t (h c (by simp))
 
-theorem stripVal_of_plain (s : Str)
-    (h : ∀ c ∈ s, isSpace c = false ∧ c ≠ '\'' ∧ c ≠ '"' ∧ c ≠ '{' ∧ c ≠ '}') : stripVal s = s := by
-  have hrev : ∀ (p : Char → Bool), (∀ c ∈ s, p c = false) → (s.reverse.dropWhile p).reverse = s := by
-    intro p hp
-    rw [dropWhile_all_false _ (fun c hc => hp c (List.mem_reverse.mp hc)), List.reverse_reverse]
-  unfold stripVal strip lstrip rstrip stripC lstripC rstripC
-  rw [dropWhile_all_false s (fun c hc => (h c hc).1), hrev _ (fun c hc => (h c hc).1),
-    dropWhile_all_false s (fun c hc => by simp [(h c hc).2.1]), hrev _ (fun c hc => by simp [(h c hc).2.1]),
-    dropWhile_all_false s (fun c hc => by simp [(h c hc).2.2.1]), hrev _ (fun c hc => by simp [(h c hc).2.2.1]),
-    dropWhile_all_false s (fun c hc => by simp [(h c hc).2.2.2.1]), hrev _ (fun c hc => by simp [(h c hc).2.2.2.2])]
+/-- a value whose first character is not a delimiter (and that has no surrounding white space) is
+left alone. -/
+theorem stripVal_of_plain (s : Str) (hs : ∀ c ∈ s, isSpace c = false)
+    (h : ∀ a, s.head? = some a → a ≠ '{' ∧ a ≠ '\'' ∧ a ≠ '"') : stripVal s = s := by
+  have hstrip : strip s = s := by
+    unfold strip lstrip rstrip
+    rw [dropWhile_all_false s hs, dropWhile_all_false s.reverse (fun c hc => hs c (List.mem_reverse.mp hc)),
+      List.reverse_reverse]
+  unfold stripVal
+  simp only [hstrip]
+  cases s with
+  | nil => rfl
+  | cons a rest =>
+    obtain ⟨h1, h2, h3⟩ := h a rfl
+    simp only
+    split
+    · simp [h1, h2, h3]
+    · rfl
 
 theorem stripVal_intStr (n : Int) : stripVal (intStr n) = intStr n := by
   apply stripVal_of_plain
-  intro c hc
-  rcases intStr_chars n c hc with h | h
-  · exact ⟨digit_not_space c h, digit_ne c _ h (by decide), digit_ne c _ h (by decide),
-      digit_ne c _ h (by decide), digit_ne c _ h (by decide)⟩
-  · subst h; decide
+  · intro c hc
+    rcases intStr_chars n c hc with h | h
+    · exact digit_not_space c h
+    · subst h; decide
+  · intro a ha
+    have hmem : a ∈ intStr n := List.mem_of_mem_head? ha
+    rcases intStr_chars n a hmem with h | h
+    · exact ⟨digit_ne a _ h (by decide), digit_ne a _ h (by decide), digit_ne a _ h (by decide)⟩
+    · subst h; decide
 
 theorem pyFloat_intStr (n : Int) : pyFloat (intStr n) = some (.fin (n : ℚ)) := by
   have h := pyFloat_decimal (decide (n < 0)) false (Nat.toDigits 10 n.natAbs) [] Nat.toDigits_ne_nil
@@ -109,27 +103,20 @@ theorem pyFloat_intStr (n : Int) : pyFloat (intStr n) = some (.fin (n : ℚ)) :=
 
 /-! ### single items through `_define_raw_metadata` -/
 
-theorem rawConv_tags (cfg : Cfg) (l : List Str) : rawConv cfg .tag (.tags l) = some (.strs l) := by
+theorem rawConv_tags (l : List Str) : rawConv .tag (.tags l) = some (.strs l) := by
   simp [rawConv, convertVal, invalidItem, binaryKeys, isZeroOne, PyVal.num?, pure, Except.pure, bind, Except.bind]
 
-/-- a label that does not look like a number (or any label once F50 is repaired) stays a string. -/
-def TextPlain (cfg : Cfg) (u : Str) : Prop := cfg.textVerbatim = true ∨ pyFloat u = none
-instance (cfg : Cfg) (u : Str) : Decidable (TextPlain cfg u) := by unfold TextPlain; infer_instance
-
-theorem rawConv_text (cfg : Cfg) (u : Str) (h : TextPlain cfg u) : rawConv cfg .text (.str u) = some (.str u) := by
-  have hc : convertVal cfg .text (.str u) = .str u := by
-    unfold convertVal
-    rcases h with h | h
-    · simp [h]
-    · simp [h]
+/-- a label stays the string it is (the reader keeps `text` verbatim). -/
+theorem rawConv_text (u : Str) : rawConv .text (.str u) = some (.str u) := by
+  have hc : convertVal .text (.str u) = .str u := by simp [convertVal]
   unfold rawConv
   rw [hc]
   simp [invalidItem, binaryKeys, pure, Except.pure, bind, Except.bind]
 
-theorem rawConv_include_int (cfg : Cfg) (n : Int) :
-    rawConv cfg .include (.str (stripVal (pyStr (.int n)))) =
+theorem rawConv_include_int (n : Int) :
+    rawConv .include (.str (stripVal (pyStr (.int n)))) =
       if n = 0 ∨ n = 1 then some (.int n) else none := by
-  have hc : convertVal cfg .include (.str (stripVal (pyStr (.int n)))) = .int n := by
+  have hc : convertVal .include (.str (stripVal (pyStr (.int n)))) = .int n := by
     simp only [convertVal, pyStr, stripVal_intStr, pyFloat_intStr]
     simp
   unfold rawConv
@@ -148,19 +135,19 @@ theorem rawConv_include_int (cfg : Cfg) (n : Int) :
       exact h'
     simp [invalidItem, binaryKeys, hz, pure, Except.pure, bind, Except.bind]
 
-theorem rawConv_include_bool (cfg : Cfg) (b : Bool) :
-    rawConv cfg .include (.str (stripVal (pyStr (.bool b)))) = none := by
+theorem rawConv_include_bool (b : Bool) :
+    rawConv .include (.str (stripVal (pyStr (.bool b)))) = none := by
   have hs : stripVal (pyStr (.bool b)) = pyStr (.bool b) := by cases b <;> decide +kernel
   have hf : pyFloat (pyStr (.bool b)) = none := by cases b <;> decide +kernel
-  have hc : convertVal cfg .include (.str (stripVal (pyStr (.bool b)))) = .str (pyStr (.bool b)) := by
+  have hc : convertVal .include (.str (stripVal (pyStr (.bool b)))) = .str (pyStr (.bool b)) := by
     simp only [convertVal, hs, hf]
     simp
   unfold rawConv
   rw [hc]
   simp [invalidItem, binaryKeys, isZeroOne, PyVal.num?, pure, Except.pure, bind, Except.bind]
 
-theorem rawConv_include_one (cfg : Cfg) : rawConv cfg .include (.str ['1']) = some (.int 1) := by
-  have := rawConv_include_int cfg 1
+theorem rawConv_include_one : rawConv .include (.str ['1']) = some (.int 1) := by
+  have := rawConv_include_int 1
   have e : stripVal (pyStr (.int 1)) = ['1'] := by decide +kernel
   rw [e] at this
   simpa using this
@@ -182,6 +169,41 @@ theorem get_gRead (g : Dict) (k : Key) : get (gRead g) k = get (rawDict g) k := 
   split
   · rename_i h; subst h; rfl
   · rw [get_update]; cases get (rawDict g) k <;> rfl
+
+/-- a non-tag key of the `global` line, as the reader holds it (no uniqueness assumption). -/
+theorem get_rawDict_of_ne_tag (g : Dict) (k : Key) (hk : k ≠ .tag) :
+    get (rawDict g) k = (get g k).map (fun v => RVal.str (stripVal (pyStr v))) := by
+  induction g with
+  | nil => rfl
+  | cons kv g ih =>
+    obtain ⟨k0, v0⟩ := kv
+    unfold rawDict at ih ⊢
+    rw [List.filterMap_cons]
+    by_cases h0 : k0 = .tag
+    · subst h0
+      have hne : Key.tag ≠ k := fun h => hk h.symm
+      simp only [if_true]
+      cases tagElems v0 with
+      | nil =>
+        simp only
+        rw [ih, get_cons]
+        cases get g k <;> simp [hne]
+      | cons a t =>
+        simp only
+        rw [get_cons, ih, get_cons]
+        cases get g k <;> simp [hne]
+    · simp only [if_neg h0]
+      rw [get_cons, ih, get_cons]
+      cases get g k with
+      | some x => simp
+      | none =>
+        by_cases hkk : k0 = k
+        · simp [hkk]
+        · simp [hkk]
+
+theorem get_gRead_of_ne_tag (g : Dict) (k : Key) (hk : k ≠ .tag) :
+    get (gRead g) k = (get g k).map (fun v => RVal.str (stripVal (pyStr v))) := by
+  rw [get_gRead, get_rawDict_of_ne_tag g k hk]
 
 theorem gRead_some {g : Dict} {k : Key} {rv : RVal} (h : get (gRead g) k = some rv) :
     ∃ v, (k, v) ∈ g ∧ rawItem k v = some rv := by
@@ -215,25 +237,44 @@ theorem gRead_isSome {g : Dict} {k : Key} (hk : k ∈ keys g) (ht : k ≠ .tag) 
   rw [← get_gRead] at hs
   exact Option.isSome_iff_exists.mp hs
 
-/-- the reader's raw dictionary of one region line, key by key. -/
-theorem raw_get (cfg : Cfg) (g dm : Dict) (raw : Dict) (hnd : (keys dm).Nodup)
-    (h : defineRaw cfg (gRead g) false (rawDict ((keys g).foldl AL.pop dm)) = .ok raw) (k : Key) :
+/-- the reader's raw dictionary of one region line (written without a sign), key by key: a key on
+the `global` line comes from there — `include` too: the sign default applies only when the
+`global` line has no `include` — any other key from the line itself. -/
+theorem raw_get (g dm : Dict) (raw : Dict) (hnd : (keys dm).Nodup)
+    (h : defineRaw (gRead g) none (rawDict ((keys g).foldl AL.pop dm)) = .ok raw) (k : Key) :
     get raw k =
-      (if k ∈ keys g then (if k = .include then some (RVal.str ['1']) else get (gRead g) k)
+      (if k ∈ keys g then get (gRead g) k
        else ((get dm k).bind (rawItem k)).orElse
-              (fun _ => if k = .include then some (RVal.str ['1']) else none)).bind (rawConv cfg k) := by
-  rw [defineRaw_get cfg _ false _ raw (gRead_nodup g) h k,
+              (fun _ => if k = .include then some (RVal.str ['1']) else none)).bind (rawConv k) := by
+  rw [defineRaw_get _ none _ raw (gRead_nodup g) h k,
     get_rawDict _ (nodup_popKeys _ _ hnd), get_popKeys]
   by_cases hk : k ∈ keys g
-  · simp only [if_pos hk, Option.bind_none, Option.orElse_none, Bool.false_eq_true, if_false]
+  · simp only [if_pos hk, Option.bind_none, Option.orElse_none]
     by_cases hi : k = .include
-    · subst hi; simp
-    · have : Key.include ≠ k := fun h => hi h.symm
-      simp [hi, this]
+    · subst hi
+      obtain ⟨rv, hrv⟩ := gRead_isSome hk (by decide)
+      simp [includeMeta, hrv]
+    · have hnone : get (includeMeta (gRead g) none) k = none := by
+        unfold includeMeta
+        simp only
+        split
+        · rfl
+        · rw [get_singleton, if_neg (fun h => hi h.symm)]
+      rw [hnone]; rfl
   · simp only [if_neg hk, gRead_none hk]
     by_cases hi : k = .include
-    · subst hi; simp
-    · have : Key.include ≠ k := fun h => hi h.symm
-      simp [hi, this]
+    · subst hi
+      have hinc : get (includeMeta (gRead g) none) .include = some (RVal.str ['1']) := by
+        simp [includeMeta, gRead_none hk, get_singleton]
+      rw [hinc]
+      cases (get dm .include).bind (rawItem .include) <;> simp
+    · have hnone : get (includeMeta (gRead g) none) k = none := by
+        unfold includeMeta
+        simp only
+        split
+        · rfl
+        · rw [get_singleton, if_neg (fun h => hi h.symm)]
+      rw [hnone]
+      cases (get dm k).bind (rawItem k) <;> simp [hi]
 
 end RegionsVerif.Impl.Ds9
